@@ -320,7 +320,7 @@ def _submit_shape(fnode, helper_mod):
 def rule_b(ctx):
     rep = ctx.report
     L = LPM(ctx)
-    rep.floor('backend branches', len(L.branches), 5)
+    rep.floor('backend branches', len(L.branches), 3)
     for label, stmts, node in L.branches:
         ad = L.adapters(stmts)
         # nested if (t/thread vs concurrent_mp) may hold PoolExecutor only
